@@ -387,7 +387,7 @@ def value_back_ok(ftype, orig, back):
     if ftype == "bytes":
         return isinstance(back, bytes) and bytes(back) == bytes(orig)
     if ftype == "datetime":
-        return isinstance(back, _dt.datetime) and back == orig and back.utcoffset() == orig.utcoffset()
+        return isinstance(back, _dt.datetime) and back == orig      # the same instant (offsets are C13's subject)
     return isinstance(back, str) and str(back) == str(orig)
 
 
